@@ -1,8 +1,1201 @@
-//! C14 — not implemented yet.
+//! C14 — temporal literals denote exactly what is written and print back losslessly.
+//!
+//! Implementation: `date("…")`, `time("…")`, `date and time("…")`, `duration("…")`, `@"…"` and
+//! `string(v)` through parse + evaluate. Model: the recognisers, validators and printers of
+//! `Dmn.Temporal` through the driver (`c14 lit`, `c14 print`). Specification: the harness writes
+//! each valid value in its canonical lexical form itself (it knows the value it wrote) and
+//! demands (1) that value back, (2) `string(v)` reading back as an equal value, (3) durations
+//! printed in normal form, (4) null for the invalid classes the property names.
 
-use crate::report::Report;
+use crate::model::Model;
+use crate::report::{Kind, Report};
+use crate::rng::Rng;
+use crate::sexp::Sexp;
+use crate::util::guarded;
 use crate::Cfg;
+use dmntk_feel::values::Value;
+use dmntk_feel::Scope;
+use serde_json::json;
 
-pub fn run(_cfg: &Cfg) -> Report {
-  Report::new("C14", "not implemented")
+/// Canonical observation of a FEEL value (temporal values through their `Debug` form, which
+/// shows the private fields; numbers through `Display`; `Null` without its message).
+pub fn obs_value(v: &Value) -> String {
+  match v {
+    Value::Null(_) => "null".to_string(),
+    Value::Boolean(b) => format!("{}", b),
+    Value::Number(n) => format!("(n {})", n),
+    Value::String(s) => format!("(s {})", s.chars().map(|c| (c as u32).to_string()).collect::<Vec<_>>().join(" ")),
+    Value::Date(d) => format!("(date {} {} {})", d.year(), d.month(), d.day()),
+    Value::Time(t) => format!("(time {})", debug_fields(&format!("{:?}", t))),
+    Value::DateTime(dt) => format!("(dt {})", debug_fields(&format!("{:?}", dt))),
+    Value::DaysAndTimeDuration(d) => format!("(dtd {})", debug_fields(&format!("{:?}", d))),
+    Value::YearsAndMonthsDuration(d) => format!("(ymd {})", debug_fields(&format!("{:?}", d))),
+    other => format!("(other {})", other.to_string().replace(' ', "_").replace('(', "[").replace(')', "]")),
+  }
+}
+
+/// `FeelDateTime(FeelDate(2021, 1, 2), FeelTime(3, 4, 5, 6, Offset(-1800)))` →
+/// `2021 1 2 3 4 5 6 (offset -1800)`; zones: `utc`, `local`, `(offset n)`, `(zone (s …))`.
+pub fn debug_fields(dbg: &str) -> String {
+  let mut out = String::new();
+  let mut rest = dbg;
+  // zone part first (it may contain a quoted name)
+  let mut zone = String::new();
+  if let Some(i) = rest.find("Zone(\"") {
+    let name_start = i + 6;
+    if let Some(j) = rest[name_start..].find('"') {
+      let name = &rest[name_start..name_start + j];
+      zone = format!("(zone {})", crate::sexp::Sexp::str(name));
+      rest = &rest[..i];
+    }
+  } else if let Some(i) = rest.find("Offset(") {
+    let n: String = rest[i + 7..].chars().take_while(|c| *c == '-' || c.is_ascii_digit()).collect();
+    zone = format!("(offset {})", n);
+    rest = &rest[..i];
+  } else if let Some(i) = rest.find("Utc") {
+    zone = "utc".to_string();
+    rest = &rest[..i];
+  } else if let Some(i) = rest.find("Local") {
+    zone = "local".to_string();
+    rest = &rest[..i];
+  }
+  let mut cur = String::new();
+  let bytes: Vec<char> = rest.chars().collect();
+  for (k, c) in bytes.iter().enumerate() {
+    if c.is_ascii_digit() || (*c == '-' && k + 1 < bytes.len() && bytes[k + 1].is_ascii_digit() && cur.is_empty()) {
+      cur.push(*c);
+    } else if !cur.is_empty() {
+      // identifiers such as `i128` do not occur in Debug output of these types
+      out.push_str(&cur);
+      out.push(' ');
+      cur.clear();
+    }
+  }
+  if !cur.is_empty() {
+    out.push_str(&cur);
+    out.push(' ');
+  }
+  out.push_str(&zone);
+  out.trim_end().to_string()
+}
+
+/// Parses and evaluates FEEL text; a parse error is `parse-error`, a panic `panic`.
+pub fn feel(text: &str) -> String {
+  let t = text.to_string();
+  match guarded(move || {
+    let s = Scope::default();
+    match dmntk_feel_parser::parse_expression(&s, &t, false) {
+      Ok(n) => match dmntk_feel_evaluator::evaluate(&s, &n) {
+        Ok(v) => obs_value(&v),
+        Err(_) => "build-error".to_string(),
+      },
+      Err(_) => "parse-error".to_string(),
+    }
+  }) {
+    Ok(o) => o,
+    Err(m) => format!("(panic {})", m.replace(' ', "_").replace('(', "[").replace(')', "]")),
+  }
+}
+
+/// Evaluates FEEL text whose value is a list; the observations of its items (a panic or a
+/// non-list is returned as a single item).
+pub fn feel_list(text: &str) -> Vec<String> {
+  let t = text.to_string();
+  match guarded(move || {
+    let s = Scope::default();
+    match dmntk_feel_parser::parse_expression(&s, &t, false) {
+      Ok(n) => match dmntk_feel_evaluator::evaluate(&s, &n) {
+        Ok(Value::List(items)) => items.as_vec().iter().map(obs_value).collect(),
+        Ok(v) => vec![obs_value(&v)],
+        Err(_) => vec!["build-error".to_string()],
+      },
+      Err(_) => vec!["parse-error".to_string()],
+    }
+  }) {
+    Ok(o) => o,
+    Err(m) => vec![format!("(panic {})", m.replace(' ', "_").replace('(', "[").replace(')', "]"))],
+  }
+}
+
+/// With `--replay FILE`: the failing input of the replay (a FEEL expression) is evaluated once
+/// more on its own and the observation is written into the notes; the run itself is repeated
+/// with the replay's seed and tier (set by `check`), which reproduces the disagreement.
+pub fn note_replay(cfg: &Cfg, rep: &mut Report) {
+  if let Some(path) = &cfg.replay {
+    if let Ok(text) = std::fs::read_to_string(path) {
+      if let Ok(j) = serde_json::from_str::<serde_json::Value>(&text) {
+        if let Some(input) = j.get("input").and_then(|v| v.as_str()) {
+          rep.notes.push(format!("replay input `{}` evaluates to {}", input, feel(input)));
+        }
+      }
+    }
+  }
+}
+
+pub fn probe_if_requested() -> bool {
+  if let Ok(p) = std::env::var("VERIF_PROBE") {
+    for line in std::fs::read_to_string(p).unwrap_or_default().lines() {
+      if line.trim().is_empty() {
+        continue;
+      }
+      println!("{}  =>  {}", line, feel(line));
+    }
+    return true;
+  }
+  false
+}
+
+
+// ---------------------------------------------------------------------------------------------
+
+#[derive(Clone, Debug)]
+struct Case {
+  kind: &'static str, // date time dt dur at
+  text: String,
+  /// `Some(obs)`: what the property says the text denotes (`null` for the invalid classes);
+  /// `None`: no expectation (corruptions: model and code must agree, nothing more).
+  expected: Option<String>,
+  /// signature to use when the implementation does not give `expected`
+  sig: &'static str,
+  family: &'static str,
+}
+
+fn fn_of(kind: &str) -> &'static str {
+  match kind {
+    "date" => "date",
+    "time" => "time",
+    "dt" => "date and time",
+    _ => "duration",
+  }
+}
+
+fn is_leap(y: i64) -> bool {
+  y.rem_euclid(4) == 0 && (y.rem_euclid(100) != 0 || y.rem_euclid(400) == 0)
+}
+
+fn dim(y: i64, m: i64) -> i64 {
+  match m {
+    1 | 3 | 5 | 7 | 8 | 10 | 12 => 31,
+    4 | 6 | 9 | 11 => 30,
+    2 => {
+      if is_leap(y) {
+        29
+      } else {
+        28
+      }
+    }
+    _ => 0,
+  }
+}
+
+/// Canonical lexical form of a date: at least four year digits, `-` for years before 0.
+fn date_text(y: i64, m: i64, d: i64) -> String {
+  format!("{}{:04}-{:02}-{:02}", if y < 0 { "-" } else { "" }, y.abs(), m, d)
+}
+
+fn offset_text(o: i64) -> String {
+  let a = o.abs();
+  let sign = if o < 0 { '-' } else { '+' };
+  if a % 60 != 0 {
+    format!("{}{:02}:{:02}:{:02}", sign, a / 3600, a % 3600 / 60, a % 60)
+  } else {
+    format!("{}{:02}:{:02}", sign, a / 3600, a % 3600 / 60)
+  }
+}
+
+#[derive(Clone, Debug)]
+enum Z {
+  Local,
+  Zulu(char),
+  Offset(i64),
+  Named(String),
+}
+
+impl Z {
+  fn text(&self) -> String {
+    match self {
+      Z::Local => String::new(),
+      Z::Zulu(c) => c.to_string(),
+      Z::Offset(o) => offset_text(*o),
+      Z::Named(n) => format!("@{}", n),
+    }
+  }
+  /// the zone of the denoted value (an offset of zero is UTC)
+  fn obs(&self) -> String {
+    match self {
+      Z::Local => "local".into(),
+      Z::Zulu(_) => "utc".into(),
+      Z::Offset(0) => "utc".into(),
+      Z::Offset(o) => format!("(offset {})", o),
+      Z::Named(n) => format!("(zone {})", Sexp::str(n)),
+    }
+  }
+}
+
+/// Exact nanoseconds of a fraction digit string: the first nine digits, right-padded.
+fn frac_ns(digits: &str) -> u64 {
+  let mut s: String = digits.chars().take(9).collect();
+  while s.len() < 9 {
+    s.push('0');
+  }
+  s.parse().unwrap()
+}
+
+fn time_text(h: i64, mi: i64, s: i64, frac: &str, z: &Z) -> String {
+  format!("{:02}:{:02}:{:02}{}{}{}", h, mi, s, if frac.is_empty() { "" } else { "." }, frac, z.text())
+}
+
+fn adversarial_fraction(rng: &mut Rng) -> String {
+  let len = rng.range(1, 9) as usize;
+  let mut s = match rng.below(9) {
+    0 => "9".repeat(len),
+    1 => format!("{}1", "0".repeat(len - 1)),
+    2 => "3".repeat(len),
+    3 => "6".repeat(len.saturating_sub(1)) + "7",
+    4 => format!("{}5", "4".repeat(len - 1)),
+    5 => {
+      // the 0.1 + 0.2 family: short decimals that are not dyadic
+      let k = rng.range(1, 9999);
+      format!("{:0width$}", k % 10i64.pow(len.min(4) as u32), width = len.min(4))
+    }
+    6 => "0".repeat(len),
+    _ => (0..len).map(|_| char::from(b'0' + rng.below(10) as u8)).collect(),
+  };
+  if rng.chance(1, 12) {
+    // more than nine digits: everything after the ninth is below a nanosecond
+    for _ in 0..rng.range(1, 12) {
+      s.push(if rng.chance(1, 2) { '9' } else { char::from(b'0' + rng.below(10) as u8) });
+    }
+  }
+  s
+}
+
+/// Every zone identifier CPython's zoneinfo lists from the system tzdata (independent of chrono-tz).
+pub const IANA_ZONES: [&str; 597] = [
+  "Africa/Abidjan", "Africa/Accra", "Africa/Addis_Ababa", "Africa/Algiers", "Africa/Asmara", "Africa/Asmera",
+  "Africa/Bamako", "Africa/Bangui", "Africa/Banjul", "Africa/Bissau", "Africa/Blantyre", "Africa/Brazzaville",
+  "Africa/Bujumbura", "Africa/Cairo", "Africa/Casablanca", "Africa/Ceuta", "Africa/Conakry", "Africa/Dakar",
+  "Africa/Dar_es_Salaam", "Africa/Djibouti", "Africa/Douala", "Africa/El_Aaiun", "Africa/Freetown", "Africa/Gaborone",
+  "Africa/Harare", "Africa/Johannesburg", "Africa/Juba", "Africa/Kampala", "Africa/Khartoum", "Africa/Kigali",
+  "Africa/Kinshasa", "Africa/Lagos", "Africa/Libreville", "Africa/Lome", "Africa/Luanda", "Africa/Lubumbashi",
+  "Africa/Lusaka", "Africa/Malabo", "Africa/Maputo", "Africa/Maseru", "Africa/Mbabane", "Africa/Mogadishu",
+  "Africa/Monrovia", "Africa/Nairobi", "Africa/Ndjamena", "Africa/Niamey", "Africa/Nouakchott", "Africa/Ouagadougou",
+  "Africa/Porto-Novo", "Africa/Sao_Tome", "Africa/Timbuktu", "Africa/Tripoli", "Africa/Tunis", "Africa/Windhoek",
+  "America/Adak", "America/Anchorage", "America/Anguilla", "America/Antigua", "America/Araguaina", "America/Argentina/Buenos_Aires",
+  "America/Argentina/Catamarca", "America/Argentina/ComodRivadavia", "America/Argentina/Cordoba", "America/Argentina/Jujuy", "America/Argentina/La_Rioja", "America/Argentina/Mendoza",
+  "America/Argentina/Rio_Gallegos", "America/Argentina/Salta", "America/Argentina/San_Juan", "America/Argentina/San_Luis", "America/Argentina/Tucuman", "America/Argentina/Ushuaia",
+  "America/Aruba", "America/Asuncion", "America/Atikokan", "America/Atka", "America/Bahia", "America/Bahia_Banderas",
+  "America/Barbados", "America/Belem", "America/Belize", "America/Blanc-Sablon", "America/Boa_Vista", "America/Bogota",
+  "America/Boise", "America/Buenos_Aires", "America/Cambridge_Bay", "America/Campo_Grande", "America/Cancun", "America/Caracas",
+  "America/Catamarca", "America/Cayenne", "America/Cayman", "America/Chicago", "America/Chihuahua", "America/Ciudad_Juarez",
+  "America/Coral_Harbour", "America/Cordoba", "America/Costa_Rica", "America/Coyhaique", "America/Creston", "America/Cuiaba",
+  "America/Curacao", "America/Danmarkshavn", "America/Dawson", "America/Dawson_Creek", "America/Denver", "America/Detroit",
+  "America/Dominica", "America/Edmonton", "America/Eirunepe", "America/El_Salvador", "America/Ensenada", "America/Fort_Nelson",
+  "America/Fort_Wayne", "America/Fortaleza", "America/Glace_Bay", "America/Godthab", "America/Goose_Bay", "America/Grand_Turk",
+  "America/Grenada", "America/Guadeloupe", "America/Guatemala", "America/Guayaquil", "America/Guyana", "America/Halifax",
+  "America/Havana", "America/Hermosillo", "America/Indiana/Indianapolis", "America/Indiana/Knox", "America/Indiana/Marengo", "America/Indiana/Petersburg",
+  "America/Indiana/Tell_City", "America/Indiana/Vevay", "America/Indiana/Vincennes", "America/Indiana/Winamac", "America/Indianapolis", "America/Inuvik",
+  "America/Iqaluit", "America/Jamaica", "America/Jujuy", "America/Juneau", "America/Kentucky/Louisville", "America/Kentucky/Monticello",
+  "America/Knox_IN", "America/Kralendijk", "America/La_Paz", "America/Lima", "America/Los_Angeles", "America/Louisville",
+  "America/Lower_Princes", "America/Maceio", "America/Managua", "America/Manaus", "America/Marigot", "America/Martinique",
+  "America/Matamoros", "America/Mazatlan", "America/Mendoza", "America/Menominee", "America/Merida", "America/Metlakatla",
+  "America/Mexico_City", "America/Miquelon", "America/Moncton", "America/Monterrey", "America/Montevideo", "America/Montreal",
+  "America/Montserrat", "America/Nassau", "America/New_York", "America/Nipigon", "America/Nome", "America/Noronha",
+  "America/North_Dakota/Beulah", "America/North_Dakota/Center", "America/North_Dakota/New_Salem", "America/Nuuk", "America/Ojinaga", "America/Panama",
+  "America/Pangnirtung", "America/Paramaribo", "America/Phoenix", "America/Port-au-Prince", "America/Port_of_Spain", "America/Porto_Acre",
+  "America/Porto_Velho", "America/Puerto_Rico", "America/Punta_Arenas", "America/Rainy_River", "America/Rankin_Inlet", "America/Recife",
+  "America/Regina", "America/Resolute", "America/Rio_Branco", "America/Rosario", "America/Santa_Isabel", "America/Santarem",
+  "America/Santiago", "America/Santo_Domingo", "America/Sao_Paulo", "America/Scoresbysund", "America/Shiprock", "America/Sitka",
+  "America/St_Barthelemy", "America/St_Johns", "America/St_Kitts", "America/St_Lucia", "America/St_Thomas", "America/St_Vincent",
+  "America/Swift_Current", "America/Tegucigalpa", "America/Thule", "America/Thunder_Bay", "America/Tijuana", "America/Toronto",
+  "America/Tortola", "America/Vancouver", "America/Virgin", "America/Whitehorse", "America/Winnipeg", "America/Yakutat",
+  "America/Yellowknife", "Antarctica/Casey", "Antarctica/Davis", "Antarctica/DumontDUrville", "Antarctica/Macquarie", "Antarctica/Mawson",
+  "Antarctica/McMurdo", "Antarctica/Palmer", "Antarctica/Rothera", "Antarctica/South_Pole", "Antarctica/Syowa", "Antarctica/Troll",
+  "Antarctica/Vostok", "Arctic/Longyearbyen", "Asia/Aden", "Asia/Almaty", "Asia/Amman", "Asia/Anadyr",
+  "Asia/Aqtau", "Asia/Aqtobe", "Asia/Ashgabat", "Asia/Ashkhabad", "Asia/Atyrau", "Asia/Baghdad",
+  "Asia/Bahrain", "Asia/Baku", "Asia/Bangkok", "Asia/Barnaul", "Asia/Beirut", "Asia/Bishkek",
+  "Asia/Brunei", "Asia/Calcutta", "Asia/Chita", "Asia/Choibalsan", "Asia/Chongqing", "Asia/Chungking",
+  "Asia/Colombo", "Asia/Dacca", "Asia/Damascus", "Asia/Dhaka", "Asia/Dili", "Asia/Dubai",
+  "Asia/Dushanbe", "Asia/Famagusta", "Asia/Gaza", "Asia/Harbin", "Asia/Hebron", "Asia/Ho_Chi_Minh",
+  "Asia/Hong_Kong", "Asia/Hovd", "Asia/Irkutsk", "Asia/Istanbul", "Asia/Jakarta", "Asia/Jayapura",
+  "Asia/Jerusalem", "Asia/Kabul", "Asia/Kamchatka", "Asia/Karachi", "Asia/Kashgar", "Asia/Kathmandu",
+  "Asia/Katmandu", "Asia/Khandyga", "Asia/Kolkata", "Asia/Krasnoyarsk", "Asia/Kuala_Lumpur", "Asia/Kuching",
+  "Asia/Kuwait", "Asia/Macao", "Asia/Macau", "Asia/Magadan", "Asia/Makassar", "Asia/Manila",
+  "Asia/Muscat", "Asia/Nicosia", "Asia/Novokuznetsk", "Asia/Novosibirsk", "Asia/Omsk", "Asia/Oral",
+  "Asia/Phnom_Penh", "Asia/Pontianak", "Asia/Pyongyang", "Asia/Qatar", "Asia/Qostanay", "Asia/Qyzylorda",
+  "Asia/Rangoon", "Asia/Riyadh", "Asia/Saigon", "Asia/Sakhalin", "Asia/Samarkand", "Asia/Seoul",
+  "Asia/Shanghai", "Asia/Singapore", "Asia/Srednekolymsk", "Asia/Taipei", "Asia/Tashkent", "Asia/Tbilisi",
+  "Asia/Tehran", "Asia/Tel_Aviv", "Asia/Thimbu", "Asia/Thimphu", "Asia/Tokyo", "Asia/Tomsk",
+  "Asia/Ujung_Pandang", "Asia/Ulaanbaatar", "Asia/Ulan_Bator", "Asia/Urumqi", "Asia/Ust-Nera", "Asia/Vientiane",
+  "Asia/Vladivostok", "Asia/Yakutsk", "Asia/Yangon", "Asia/Yekaterinburg", "Asia/Yerevan", "Atlantic/Azores",
+  "Atlantic/Bermuda", "Atlantic/Canary", "Atlantic/Cape_Verde", "Atlantic/Faeroe", "Atlantic/Faroe", "Atlantic/Jan_Mayen",
+  "Atlantic/Madeira", "Atlantic/Reykjavik", "Atlantic/South_Georgia", "Atlantic/St_Helena", "Atlantic/Stanley", "Australia/ACT",
+  "Australia/Adelaide", "Australia/Brisbane", "Australia/Broken_Hill", "Australia/Canberra", "Australia/Currie", "Australia/Darwin",
+  "Australia/Eucla", "Australia/Hobart", "Australia/LHI", "Australia/Lindeman", "Australia/Lord_Howe", "Australia/Melbourne",
+  "Australia/NSW", "Australia/North", "Australia/Perth", "Australia/Queensland", "Australia/South", "Australia/Sydney",
+  "Australia/Tasmania", "Australia/Victoria", "Australia/West", "Australia/Yancowinna", "Brazil/Acre", "Brazil/DeNoronha",
+  "Brazil/East", "Brazil/West", "CET", "CST6CDT", "Canada/Atlantic", "Canada/Central",
+  "Canada/Eastern", "Canada/Mountain", "Canada/Newfoundland", "Canada/Pacific", "Canada/Saskatchewan", "Canada/Yukon",
+  "Chile/Continental", "Chile/EasterIsland", "Cuba", "EET", "EST", "EST5EDT",
+  "Egypt", "Eire", "Etc/GMT", "Etc/GMT+0", "Etc/GMT+1", "Etc/GMT+10",
+  "Etc/GMT+11", "Etc/GMT+12", "Etc/GMT+2", "Etc/GMT+3", "Etc/GMT+4", "Etc/GMT+5",
+  "Etc/GMT+6", "Etc/GMT+7", "Etc/GMT+8", "Etc/GMT+9", "Etc/GMT-0", "Etc/GMT-1",
+  "Etc/GMT-10", "Etc/GMT-11", "Etc/GMT-12", "Etc/GMT-13", "Etc/GMT-14", "Etc/GMT-2",
+  "Etc/GMT-3", "Etc/GMT-4", "Etc/GMT-5", "Etc/GMT-6", "Etc/GMT-7", "Etc/GMT-8",
+  "Etc/GMT-9", "Etc/GMT0", "Etc/Greenwich", "Etc/UCT", "Etc/UTC", "Etc/Universal",
+  "Etc/Zulu", "Europe/Amsterdam", "Europe/Andorra", "Europe/Astrakhan", "Europe/Athens", "Europe/Belfast",
+  "Europe/Belgrade", "Europe/Berlin", "Europe/Bratislava", "Europe/Brussels", "Europe/Bucharest", "Europe/Budapest",
+  "Europe/Busingen", "Europe/Chisinau", "Europe/Copenhagen", "Europe/Dublin", "Europe/Gibraltar", "Europe/Guernsey",
+  "Europe/Helsinki", "Europe/Isle_of_Man", "Europe/Istanbul", "Europe/Jersey", "Europe/Kaliningrad", "Europe/Kiev",
+  "Europe/Kirov", "Europe/Kyiv", "Europe/Lisbon", "Europe/Ljubljana", "Europe/London", "Europe/Luxembourg",
+  "Europe/Madrid", "Europe/Malta", "Europe/Mariehamn", "Europe/Minsk", "Europe/Monaco", "Europe/Moscow",
+  "Europe/Nicosia", "Europe/Oslo", "Europe/Paris", "Europe/Podgorica", "Europe/Prague", "Europe/Riga",
+  "Europe/Rome", "Europe/Samara", "Europe/San_Marino", "Europe/Sarajevo", "Europe/Saratov", "Europe/Simferopol",
+  "Europe/Skopje", "Europe/Sofia", "Europe/Stockholm", "Europe/Tallinn", "Europe/Tirane", "Europe/Tiraspol",
+  "Europe/Ulyanovsk", "Europe/Uzhgorod", "Europe/Vaduz", "Europe/Vatican", "Europe/Vienna", "Europe/Vilnius",
+  "Europe/Volgograd", "Europe/Warsaw", "Europe/Zagreb", "Europe/Zaporozhye", "Europe/Zurich", "GB",
+  "GB-Eire", "GMT", "GMT+0", "GMT-0", "GMT0", "Greenwich",
+  "HST", "Hongkong", "Iceland", "Indian/Antananarivo", "Indian/Chagos", "Indian/Christmas",
+  "Indian/Cocos", "Indian/Comoro", "Indian/Kerguelen", "Indian/Mahe", "Indian/Maldives", "Indian/Mauritius",
+  "Indian/Mayotte", "Indian/Reunion", "Iran", "Israel", "Jamaica", "Japan",
+  "Kwajalein", "Libya", "MET", "MST", "MST7MDT", "Mexico/BajaNorte",
+  "Mexico/BajaSur", "Mexico/General", "NZ", "NZ-CHAT", "Navajo", "PRC",
+  "PST8PDT", "Pacific/Apia", "Pacific/Auckland", "Pacific/Bougainville", "Pacific/Chatham", "Pacific/Chuuk",
+  "Pacific/Easter", "Pacific/Efate", "Pacific/Enderbury", "Pacific/Fakaofo", "Pacific/Fiji", "Pacific/Funafuti",
+  "Pacific/Galapagos", "Pacific/Gambier", "Pacific/Guadalcanal", "Pacific/Guam", "Pacific/Honolulu", "Pacific/Johnston",
+  "Pacific/Kanton", "Pacific/Kiritimati", "Pacific/Kosrae", "Pacific/Kwajalein", "Pacific/Majuro", "Pacific/Marquesas",
+  "Pacific/Midway", "Pacific/Nauru", "Pacific/Niue", "Pacific/Norfolk", "Pacific/Noumea", "Pacific/Pago_Pago",
+  "Pacific/Palau", "Pacific/Pitcairn", "Pacific/Pohnpei", "Pacific/Ponape", "Pacific/Port_Moresby", "Pacific/Rarotonga",
+  "Pacific/Saipan", "Pacific/Samoa", "Pacific/Tahiti", "Pacific/Tarawa", "Pacific/Tongatapu", "Pacific/Truk",
+  "Pacific/Wake", "Pacific/Wallis", "Pacific/Yap", "Poland", "Portugal", "ROC",
+  "ROK", "Singapore", "Turkey", "UCT", "US/Alaska", "US/Aleutian",
+  "US/Arizona", "US/Central", "US/East-Indiana", "US/Eastern", "US/Hawaii", "US/Indiana-Starke",
+  "US/Michigan", "US/Mountain", "US/Pacific", "US/Samoa", "UTC", "Universal",
+  "W-SU", "WET", "Zulu",
+];
+
+const KNOWN_ZONES: [&str; 14] = [
+  "Europe/Warsaw", "Europe/London", "America/New_York", "America/Vancouver", "Asia/Kolkata", "Asia/Tokyo", "Australia/Sydney",
+  "Pacific/Honolulu", "Africa/Johannesburg", "Etc/UTC", "UTC", "America/Argentina/Buenos_Aires", "America/Port_of_Spain", "Etc/GMT",
+];
+const UNKNOWN_ZONES: [&str; 5] = ["Europe/Nowhere", "europe/warsaw", "Mars/Olympus_Mons", "X", "Europe/"];
+
+/// Spec-side normal form of a days-and-time duration.
+fn dtd_normal(n: i128) -> String {
+  if n == 0 {
+    return "PT0S".into();
+  }
+  let a = n.abs();
+  let (d, r) = (a / 86_400_000_000_000, a % 86_400_000_000_000);
+  let (h, r) = (r / 3_600_000_000_000, r % 3_600_000_000_000);
+  let (mi, r) = (r / 60_000_000_000, r % 60_000_000_000);
+  let (s, ns) = (r / 1_000_000_000, r % 1_000_000_000);
+  let mut t = String::new();
+  if n < 0 {
+    t.push('-');
+  }
+  t.push('P');
+  if d > 0 {
+    t += &format!("{}D", d);
+  }
+  if h > 0 || mi > 0 || s > 0 || ns > 0 {
+    t.push('T');
+    if h > 0 {
+      t += &format!("{}H", h);
+    }
+    if mi > 0 {
+      t += &format!("{}M", mi);
+    }
+    if ns > 0 {
+      t += &format!("{}.{}S", s, format!("{:09}", ns).trim_end_matches('0'));
+    } else if s > 0 {
+      t += &format!("{}S", s);
+    }
+  }
+  t
+}
+
+fn ymd_normal(n: i128) -> String {
+  if n == 0 {
+    return "P0M".into();
+  }
+  let a = n.abs();
+  let mut t = String::new();
+  if n < 0 {
+    t.push('-');
+  }
+  t.push('P');
+  if a / 12 > 0 {
+    t += &format!("{}Y", a / 12);
+  }
+  if a % 12 > 0 {
+    t += &format!("{}M", a % 12);
+  }
+  t
+}
+
+fn has_forbidden(t: &str) -> bool {
+  t.contains('"') || t.contains('\\') || t.contains('\n')
+}
+
+fn norm(s: &str) -> String {
+  if s.starts_with("(panic") {
+    "panic".to_string()
+  } else {
+    s.to_string()
+  }
+}
+
+/// `(time h m s NS zone)` / `(dt … NS zone)` with the nanoseconds blanked: to tell an f64 loss
+/// from any other difference.
+fn mask_ns(obs: &str) -> String {
+  let toks: Vec<&str> = obs.splitn(9, ' ').collect();
+  if obs.starts_with("(time ") && toks.len() >= 6 {
+    let mut v: Vec<String> = toks.iter().map(|s| s.to_string()).collect();
+    v[4] = "_".into();
+    v.join(" ")
+  } else if obs.starts_with("(dt ") && toks.len() >= 9 {
+    let mut v: Vec<String> = toks.iter().map(|s| s.to_string()).collect();
+    v[7] = "_".into();
+    v.join(" ")
+  } else {
+    obs.to_string()
+  }
+}
+
+fn known_zone(cache: &mut std::collections::HashMap<String, bool>, name: &str) -> bool {
+  if let Some(b) = cache.get(name) {
+    return *b;
+  }
+  let ok = !has_forbidden(name) && feel(&format!("time(\"12:00:00@{}\")", name)).starts_with("(time");
+  cache.insert(name.to_string(), ok);
+  ok
+}
+
+fn gen_cases(rng: &mut Rng, thorough: bool) -> Vec<Case> {
+  let mut cs: Vec<Case> = vec![];
+  let scale = if thorough { 8 } else { 1 };
+  // ---- A. dates, years stratified over the whole range (by number of digits, both signs)
+  let mut years: Vec<i64> = vec![0, 1, 5, 9, 10, 99, 100, 999, 1000, 1001, 1582, 1900, 1970, 2000, 2021, 2400, 9999, 10_000, 99_999, 100_000, 262_142, 262_143, 262_144, 999_999, 1_000_000, 9_999_999, 10_000_000, 99_999_999, 100_000_000, 999_999_999];
+  for digits in 1..=9u32 {
+    for _ in 0..(6 * scale) {
+      let lo = if digits == 1 { 0 } else { 10i64.pow(digits - 1) };
+      years.push(rng.range(lo, 10i64.pow(digits) - 1));
+    }
+  }
+  let mut all_years = vec![];
+  for y in &years {
+    all_years.push(*y);
+    if *y != 0 {
+      all_years.push(-*y);
+    }
+  }
+  for y in &all_years {
+    let mut mds: Vec<(i64, i64)> = vec![(1, 1), (12, 31), (2, 28)];
+    if is_leap(*y) {
+      mds.push((2, 29));
+    }
+    let m = rng.range(1, 12);
+    mds.push((m, rng.range(1, dim(*y, m))));
+    for (m, d) in mds {
+      cs.push(Case {
+        kind: "date",
+        text: date_text(*y, m, d),
+        expected: Some(format!("(date {} {} {})", y, m, d)),
+        sig: if y.abs() < 1000 { "C14 date literal with a year below 1000 (or above -1000) is rejected" } else { "C14 valid date literal does not denote the written date" },
+        family: "date:valid",
+      });
+    }
+  }
+  // ---- B. times: every whole-minute offset, fraction lengths 0..9 (+ longer), zones
+  let mut offsets: Vec<Z> = vec![Z::Local, Z::Zulu('Z'), Z::Zulu('z')];
+  for o in -899..=899i64 {
+    offsets.push(Z::Offset(o * 60));
+  }
+  for _ in 0..(60 * scale) {
+    offsets.push(Z::Offset(rng.range(-53_999, 53_999)));
+  }
+  for o in [-53_999i64, 53_999, -1, 1, -59, 59, -3599, 3599, -3601, 3601] {
+    offsets.push(Z::Offset(o));
+  }
+  for n in KNOWN_ZONES {
+    offsets.push(Z::Named(n.to_string()));
+  }
+  for z in &offsets {
+    let (h, mi, s) = (rng.range(0, 23), rng.range(0, 59), rng.range(0, 59));
+    let frac = if rng.chance(1, 3) { String::new() } else { adversarial_fraction(rng) };
+    let ns = if frac.is_empty() { 0 } else { frac_ns(&frac) };
+    cs.push(Case {
+      kind: "time",
+      text: time_text(h, mi, s, &frac, z),
+      expected: Some(format!("(time {} {} {} {} {})", h, mi, s, ns, z.obs())),
+      sig: "C14 valid time literal does not denote the written time",
+      family: "time:valid",
+    });
+  }
+  for len in 0..=9usize {
+    for _ in 0..(25 * scale) {
+      let mut frac = adversarial_fraction(rng);
+      frac.truncate(len.max(1));
+      while frac.len() < len {
+        frac.push(char::from(b'0' + rng.below(10) as u8));
+      }
+      if len == 0 {
+        frac.clear();
+      }
+      let (h, mi, s) = (rng.range(0, 23), rng.range(0, 59), rng.range(0, 59));
+      let z = rng.pick(&offsets).clone();
+      let ns = if frac.is_empty() { 0 } else { frac_ns(&frac) };
+      cs.push(Case {
+        kind: "time",
+        text: time_text(h, mi, s, &frac, &z),
+        expected: Some(format!("(time {} {} {} {} {})", h, mi, s, ns, z.obs())),
+        sig: "C14 valid time literal does not denote the written time",
+        family: "time:valid",
+      });
+    }
+  }
+  for (frac, s) in [("99999999999999999999", 59), ("99999999999999999999", 0), ("9999999999", 30), ("0157", 0), ("000000001", 0), ("999999999", 59)] {
+    cs.push(Case {
+      kind: "time",
+      text: time_text(10, 0, s, frac, &Z::Local),
+      expected: Some(format!("(time 10 0 {} {} local)", s, frac_ns(frac))),
+      sig: "C14 valid time literal does not denote the written time",
+      family: "time:valid",
+    });
+  }
+  // every zone identifier of the IANA list (thorough; a sample in the quick tier)
+  for (i, n) in IANA_ZONES.iter().enumerate() {
+    let special = n.chars().any(|c| !(c.is_ascii_alphabetic() || c == '_' || c == '/'));
+    if thorough || special || i % 8 == 0 {
+      cs.push(Case {
+        kind: if i % 2 == 0 { "time" } else { "dt" },
+        text: if i % 2 == 0 { format!("12:00:00@{}", n) } else { format!("2021-01-15T12:00:00@{}", n) },
+        expected: Some(if i % 2 == 0 { format!("(time 12 0 0 0 (zone {}))", Sexp::str(n)) } else { format!("(dt 2021 1 15 12 0 0 0 (zone {}))", Sexp::str(n)) }),
+        sig: if special { "C14 zone identifier containing a digit, '+' or '-' is rejected (ZONE_PATTERN)" } else { "zone-database-skew" },
+        family: "zone:iana",
+      });
+    }
+  }
+  // ---- C. date-times
+  for _ in 0..(400 * scale) {
+    let y = *rng.pick(&all_years);
+    let m = rng.range(1, 12);
+    let d = rng.range(1, dim(y, m));
+    let (h, mi, s) = (rng.range(0, 23), rng.range(0, 59), rng.range(0, 59));
+    let frac = if rng.chance(1, 2) { String::new() } else { adversarial_fraction(rng) };
+    let z = rng.pick(&offsets).clone();
+    let ns = if frac.is_empty() { 0 } else { frac_ns(&frac) };
+    cs.push(Case {
+      kind: "dt",
+      text: format!("{}T{}", date_text(y, m, d), time_text(h, mi, s, &frac, &z)),
+      expected: Some(format!("(dt {} {} {} {} {} {} {} {})", y, m, d, h, mi, s, ns, z.obs())),
+      sig: if y.abs() < 1000 { "C14 date literal with a year below 1000 (or above -1000) is rejected" } else { "C14 valid date and time literal does not denote the written value" },
+      family: "dt:valid",
+    });
+  }
+  cs.push(Case { kind: "dt", text: "2021-01-01".into(), expected: Some("(dt 2021 1 1 0 0 0 0 local)".into()), sig: "C14 date and time from a date-only text", family: "dt:valid" });
+  // ---- D. durations
+  let big = [0u64, 1, 23, 24, 25, 36, 59, 60, 61, 90, 100, 1000, 3599, 3600, 86_399, 86_400, 86_401, 999_999_999, u32::MAX as u64, i64::MAX as u64, u64::MAX];
+  for mask in 1..16u32 {
+    for _ in 0..(40 * scale) {
+      let neg = rng.chance(1, 3);
+      let mut total: i128 = 0;
+      let mut t = String::from(if neg { "-P" } else { "P" });
+      let mut comp = |rng: &mut Rng| -> u64 { if rng.chance(1, 3) { *rng.pick(&big) } else { rng.range(0, 200) as u64 } };
+      if mask & 1 != 0 {
+        let v = comp(rng);
+        t += &format!("{}D", v);
+        total += v as i128 * 86_400_000_000_000;
+      }
+      if mask & 14 != 0 {
+        t.push('T');
+      }
+      if mask & 2 != 0 {
+        let v = comp(rng);
+        t += &format!("{}H", v);
+        total += v as i128 * 3_600_000_000_000;
+      }
+      if mask & 4 != 0 {
+        let v = comp(rng);
+        t += &format!("{}M", v);
+        total += v as i128 * 60_000_000_000;
+      }
+      if mask & 8 != 0 {
+        let v = comp(rng);
+        total += v as i128 * 1_000_000_000;
+        if rng.chance(1, 2) {
+          let frac = adversarial_fraction(rng);
+          total += frac_ns(&frac) as i128;
+          t += &format!("{}.{}S", v, frac);
+        } else {
+          t += &format!("{}S", v);
+        }
+      }
+      if neg {
+        total = -total;
+      }
+      cs.push(Case { kind: "dur", text: t, expected: Some(format!("(dtd {})", total)), sig: "C14 valid days and time duration literal does not denote the written length", family: "dtd:valid" });
+    }
+  }
+  for mask in 1..4u32 {
+    for _ in 0..(60 * scale) {
+      let neg = rng.chance(1, 3);
+      let mut total: i128 = 0;
+      let mut t = String::from(if neg { "-P" } else { "P" });
+      if mask & 1 != 0 {
+        let v = *rng.pick(&[0u64, 1, 2, 10, 99, 1000, 999_999_999, 768_614_336_404_564_650]);
+        t += &format!("{}Y", v);
+        total += v as i128 * 12;
+      }
+      if mask & 2 != 0 {
+        let v = *rng.pick(&[0u64, 1, 11, 12, 13, 14, 24, 100, 999_999_999, 7]);
+        t += &format!("{}M", v);
+        total += v as i128;
+      }
+      if neg {
+        total = -total;
+      }
+      if total.abs() > i64::MAX as i128 {
+        cs.push(Case { kind: "dur", text: t, expected: Some("null".into()), sig: "C14 duration literal beyond the representable maximum is not null", family: "dur:too-large" });
+      } else {
+        cs.push(Case { kind: "dur", text: t, expected: Some(format!("(ymd {})", total)), sig: "C14 valid years and months duration literal does not denote the written length", family: "ymd:valid" });
+      }
+    }
+  }
+  for (t, n) in [("P768614336404564650Y7M", i64::MAX as i128), ("-P768614336404564650Y7M", -(i64::MAX as i128))] {
+    cs.push(Case { kind: "dur", text: t.into(), expected: Some(format!("(ymd {})", n)), sig: "C14 maximal years and months duration", family: "ymd:valid" });
+  }
+  // beyond the representable maximum: null is the specified answer
+  for t in ["P768614336404564651Y", "P999999999999999999Y", "P9223372036854775808M", "-P9223372036854775808M", "P1537228672809129301Y", "P18446744073709551616M", "P99999999999999999999Y1M", "PT18446744073709551616S", "P18446744073709551616DT1S"] {
+    cs.push(Case { kind: "dur", text: t.into(), expected: Some("null".into()), sig: "C14 duration literal beyond the representable maximum is not null", family: "dur:too-large" });
+  }
+  // ---- E. the invalid classes the property names
+  let inv = |cs: &mut Vec<Case>, kind: &'static str, text: String, sig: &'static str| {
+    cs.push(Case { kind, text, expected: Some("null".into()), sig, family: "invalid" });
+  };
+  for y in [1900i64, 2000, 2021, 2024, 999_999_999, -2021, 1000] {
+    for (m, d) in [(2, 30), (2, 31), (4, 31), (6, 31), (9, 31), (11, 31), (1, 32), (12, 32), (13, 1), (0, 1), (99, 99)] {
+      inv(&mut cs, "date", date_text(y, m, d), "C14 impossible calendar date is accepted");
+      inv(&mut cs, "dt", format!("{}T10:00:00", date_text(y, m, d)), "C14 impossible calendar date is accepted");
+    }
+    if !is_leap(y) {
+      inv(&mut cs, "date", date_text(y, 2, 29), "C14 impossible calendar date is accepted");
+    }
+    for m in 1..=12 {
+      inv(&mut cs, "date", date_text(y, m, 0), "C14 day 0 is accepted in a date literal");
+    }
+    inv(&mut cs, "dt", format!("{}T10:00:00Z", date_text(y, 6, 0)), "C14 day 0 is accepted in a date literal");
+  }
+  for t in ["24:00:00", "24:00:01", "25:10:10", "99:00:00", "10:60:00", "10:99:00", "10:00:60", "10:00:61", "10:00:99", "23:59:60"] {
+    inv(&mut cs, "time", t.to_string(), "C14 hour 24 or minute/second 60 and above is accepted");
+    inv(&mut cs, "dt", format!("2021-01-01T{}", t), "C14 hour 24 or minute/second 60 and above is accepted");
+    inv(&mut cs, "time", format!("{}Z", t), "C14 hour 24 or minute/second 60 and above is accepted");
+  }
+  for hh in 15..=99i64 {
+    if hh < 20 || hh % 10 == 0 || hh == 99 {
+      for sign in ['+', '-'] {
+        inv(&mut cs, "time", format!("10:00:00{}{:02}:00", sign, hh), "C14 offset hours above 14 are accepted");
+        inv(&mut cs, "dt", format!("2021-01-01T10:00:00{}{:02}:30", sign, hh), "C14 offset hours above 14 are accepted");
+      }
+    }
+  }
+  for (hh, mm) in [(0, 60), (5, 60), (14, 60), (14, 99), (1, 75), (0, 99)] {
+    for sign in ['+', '-'] {
+      inv(&mut cs, "time", format!("10:00:00{}{:02}:{:02}", sign, hh, mm), "C14 offset minutes or seconds of 60..99 are accepted");
+      inv(&mut cs, "time", format!("10:00:00{}{:02}:00:{:02}", sign, hh, mm), "C14 offset minutes or seconds of 60..99 are accepted");
+    }
+  }
+  for n in UNKNOWN_ZONES {
+    inv(&mut cs, "time", format!("10:00:00@{}", n), "C14 unknown zone identifier is accepted");
+    inv(&mut cs, "dt", format!("2021-01-01T10:00:00@{}", n), "C14 unknown zone identifier is accepted");
+  }
+  for t in ["", " ", "2021-01-01 ", " 2021-01-01", "2021-1-01", "2021-01-1", "21-01-01", "2021/01/01", "2021-01-01Z", "+2021-01-01", "--2021-01-01", "2021-01-01T", "20210101", "2021-01", "02021-01-01", "1234567890-01-01", "2021-01-01-01", "٢٠٢١-٠١-٠١"] {
+    inv(&mut cs, "date", t.to_string(), "C14 malformed date text is accepted");
+  }
+  for t in ["", "10:00", "10", "1:00:00", "10:0:00", "10:00:0", "10.00.00", "10:00:00.", "10:00:00.Z", "10:00:00 Z", "10:00:00ZZ", "10:00:00+1:00", "10:00:00+01", "10:00:00+0100", "10:00:00+01:0", "10:00:00@", "10:00:00@Europe Warsaw", "10:00:00+01:00Z", "T10:00:00", "10:00:00,5", "10:00:00.5.5", "100:00:00"] {
+    inv(&mut cs, "time", t.to_string(), "C14 malformed time text is accepted");
+  }
+  for t in ["2021-01-01t10:00:00", "2021-01-01 10:00:00", "2021-01-01T10:00", "2021-01-01TT10:00:00", "2021-01-01T10:00:00T", "T10:00:00", "2021-01-01T", "2021-01-01T10:00:00.", "2021-01-01T10:00:00+01:00@Europe/Warsaw"] {
+    inv(&mut cs, "dt", t.to_string(), "C14 malformed date and time text is accepted");
+  }
+  for t in ["", "P", "-P", "PT", "P1", "1D", "P1S", "P1H", "PT1D", "P1DT", "P1DT1", "PT0.S", "PT.5S", "PT1.5M", "P1.5D", "P-1D", "+P1D", "P1D1H", "PT1S1M", "PT1M1H", "P1M1Y", "P1Y1D", "P1YT1H", "P1Y2M3DT4H", "p1d", "P1d", "P 1D", "P1D ", "PT1H2M3S4", "--P1D", "P1DT-1H", "PT1,5S"] {
+    inv(&mut cs, "dur", t.to_string(), "C14 malformed duration text is accepted");
+  }
+  // ---- F. every single-character corruption of a corpus of valid literals
+  let corpus: Vec<(&'static str, &'static str)> = vec![
+    ("date", "2021-02-28"), ("date", "-1000-12-31"), ("date", "999999999-01-01"), ("date", "2024-02-29"),
+    ("time", "10:20:30"), ("time", "23:59:59.999999999Z"), ("time", "00:00:00.5+01:30"), ("time", "10:00:00-14:59:59"), ("time", "12:00:00@Europe/Warsaw"), ("time", "12:00:00z"),
+    ("dt", "2021-02-28T10:20:30"), ("dt", "2021-02-28T10:20:30.125-05:00"), ("dt", "-2021-02-28T23:59:59Z"), ("dt", "2021-06-01T12:00:00@Asia/Tokyo"),
+    ("dur", "P1D"), ("dur", "-P1DT2H3M4.5S"), ("dur", "PT36H"), ("dur", "PT0.000000001S"), ("dur", "P1Y2M"), ("dur", "-P14M"), ("dur", "P10Y"), ("dur", "PT1M"),
+    ("at", "2021-02-28"), ("at", "10:20:30Z"), ("at", "2021-02-28T10:20:30+01:00"), ("at", "P1Y2M"), ("at", "P1DT1H"),
+  ];
+  let alphabet: Vec<char> = "09:-+.TZPx @/".chars().collect();
+  let alphabet2: Vec<char> = "15zYMDHSt_\u{661}".chars().collect();
+  for (kind, lit) in &corpus {
+    let chars: Vec<char> = lit.chars().collect();
+    cs.push(Case { kind, text: lit.to_string(), expected: None, sig: "", family: "corpus" });
+    for i in 0..=chars.len() {
+      let abc: Vec<char> = if thorough { alphabet.iter().chain(alphabet2.iter()).cloned().collect() } else { alphabet.clone() };
+      for c in &abc {
+        // insertion
+        let mut v = chars.clone();
+        v.insert(i, *c);
+        cs.push(Case { kind, text: v.iter().collect(), expected: None, sig: "", family: "corrupt:insert" });
+        // replacement
+        if i < chars.len() && chars[i] != *c {
+          let mut v = chars.clone();
+          v[i] = *c;
+          cs.push(Case { kind, text: v.iter().collect(), expected: None, sig: "", family: "corrupt:replace" });
+        }
+      }
+      if i < chars.len() {
+        let mut v = chars.clone();
+        v.remove(i);
+        cs.push(Case { kind, text: v.iter().collect(), expected: None, sig: "", family: "corrupt:delete" });
+        if i + 1 < chars.len() && chars[i] != chars[i + 1] {
+          let mut v = chars.clone();
+          v.swap(i, i + 1);
+          cs.push(Case { kind, text: v.iter().collect(), expected: None, sig: "", family: "corrupt:swap" });
+        }
+      }
+    }
+  }
+  cs.retain(|c| !has_forbidden(&c.text));
+  cs
+}
+
+/// Values that no literal denotes but constructors build: their text must read back too.
+fn constructed_values(rng: &mut Rng, thorough: bool) -> Vec<(String, &'static str)> {
+  let mut v: Vec<(String, &'static str)> = vec![];
+  for y in [0i64, 1, 5, 99, 999, -1, -5, -99, -999, -1000, 1000, -999_999_999] {
+    v.push((format!("date({},{},{})", y, 1, 1), "date"));
+    v.push((format!("date and time(date({},{},{}), time(\"10:00:00Z\"))", y, 12, 31), "dt"));
+  }
+  let n = if thorough { 2000 } else { 300 };
+  for _ in 0..n {
+    let o = match rng.below(4) {
+      0 => rng.range(-3599, -1),
+      1 => rng.range(-53_999, 53_999),
+      2 => 60 * rng.range(-59, -1),
+      _ => 60 * rng.range(-899, 899),
+    };
+    let dur = format!("duration(\"{}PT{}S\")", if o < 0 { "-" } else { "" }, o.abs());
+    v.push((format!("time({}, {}, {}, {})", rng.range(0, 23), rng.range(0, 59), rng.range(0, 59), dur), "time"));
+  }
+  for _ in 0..n {
+    // time(h, m, s) with a decimal fraction of seconds (exact: decimal arithmetic)
+    let ns = rng.range(0, 999_999_999);
+    v.push((format!("time({}, {}, {}.{:09})", rng.range(0, 23), rng.range(0, 59), rng.range(0, 59), ns), "time"));
+  }
+  v
+}
+
+pub fn run(cfg: &Cfg) -> Report {
+  match guarded(|| run_inner(cfg)) {
+    Ok(r) => r,
+    Err(m) => {
+      eprintln!("C14 harness failed: {}", m);
+      std::process::exit(3);
+    }
+  }
+}
+
+fn run_inner(cfg: &Cfg) -> Report {
+  let mut rep = Report::new(
+    "C14",
+    "temporal literals through date(), time(), date and time(), duration(), @\"…\" and string(): valid values written by the harness (years stratified over ±999999999, every whole-minute offset −14:59…+14:59, fractions of 0…9 and more digits with adversarial patterns, known zone names, all 15 component patterns of days-and-time durations with normalisation-needing and maximal components, years-and-months durations up to i64 months), the invalid classes named by the property, every single-character insertion/replacement/deletion/swap over a 27-literal corpus, and values only constructors build. Non-trivial: every case (distinct by kind and text).",
+  );
+  if probe_if_requested() {
+    return rep;
+  }
+  note_replay(cfg, &mut rep);
+  let thorough = cfg.tier == "thorough";
+  let mut rng = Rng::new(cfg.seed);
+  let mut model = Model::start(&cfg.driver);
+  let mut zone_cache = std::collections::HashMap::new();
+  // sanity of the zone oracle: well-known names are known, made-up ones are not
+  for n in KNOWN_ZONES {
+    if !known_zone(&mut zone_cache, n) {
+      rep.disagree(Kind::ImplVsSpec, "zones", "C14 well-known IANA zone identifier is not accepted", &format!("time(\"12:00:00@{}\")", n), "null", "a time");
+    }
+  }
+  let cases = gen_cases(&mut rng, thorough);
+  // ---- implementation
+  struct Obs {
+    v: String,
+    s: String,
+    v2: String,
+    known: bool,
+  }
+  let mut obs: Vec<Obs> = Vec::with_capacity(cases.len());
+  for c in &cases {
+    let known = match c.text.find('@') {
+      Some(i) => known_zone(&mut zone_cache, &c.text[i + 1..]),
+      None => true,
+    };
+    let o = if c.kind == "at" {
+      let r = feel_list(&format!("{{v: @\"{}\", r: [v, string(v)]}}.r", c.text));
+      if r.len() == 2 {
+        Obs { v: norm(&r[0]), s: r[1].clone(), v2: String::new(), known }
+      } else {
+        Obs { v: norm(&r[0]), s: "null".into(), v2: String::new(), known }
+      }
+    } else {
+      let f = fn_of(c.kind);
+      let r = feel_list(&format!("{{v: {}(\"{}\"), s: string(v), r: [v, s, {}(s)]}}.r", f, c.text, f));
+      if r.len() == 3 {
+        Obs { v: norm(&r[0]), s: r[1].clone(), v2: norm(&r[2]), known }
+      } else if norm(&r[0]) == "panic" {
+        // which part panicked: reading the literal, or printing the value?
+        let v = norm(&feel(&format!("{}(\"{}\")", f, c.text)));
+        if v == "panic" {
+          Obs { v, s: "null".into(), v2: "null".into(), known }
+        } else {
+          Obs { v, s: "panic".into(), v2: "null".into(), known }
+        }
+      } else {
+        Obs { v: norm(&r[0]), s: "null".into(), v2: "null".into(), known }
+      }
+    };
+    obs.push(o);
+  }
+  // ---- the same texts through the xsd constructors of `Value` (typed inputs of a model)
+  let mut xdt_idx = vec![];
+  let mut xdt_reqs = vec![];
+  for (i, c) in cases.iter().enumerate() {
+    let t = c.text.clone();
+    let api = match c.kind {
+      "date" => Some(guarded(move || Value::try_from_xsd_date(&t).map(|v| obs_value(&v)).unwrap_or_else(|_| "null".into()))),
+      "time" => Some(guarded(move || Value::try_from_xsd_time(&t).map(|v| obs_value(&v)).unwrap_or_else(|_| "null".into()))),
+      "dt" => Some(guarded(move || Value::try_from_xsd_date_time(&t).map(|v| obs_value(&v)).unwrap_or_else(|_| "null".into()))),
+      "dur" => Some(guarded(move || Value::try_from_xsd_duration(&t).map(|v| obs_value(&v)).unwrap_or_else(|_| "null".into()))),
+      _ => None,
+    };
+    if let Some(a) = api {
+      let a = a.unwrap_or_else(|_| "panic".into());
+      rep.hit("route:xsd-constructor");
+      if c.kind == "dt" {
+        xdt_idx.push((i, a));
+        xdt_reqs.push(format!("(c14 lit xdt {} {})", obs[i].known, Sexp::str(&c.text)));
+      } else if a != obs[i].v {
+        rep.disagree(Kind::ImplVsModel, "xsd", "xsd constructor differs from the FEEL built-in on the same text", &format!("{} {}", c.kind, c.text), &a, &obs[i].v);
+      }
+    }
+  }
+  let xdt_ans = model.ask_batch(&xdt_reqs);
+  for ((i, a), m) in xdt_idx.iter().zip(xdt_ans.iter()) {
+    if a != m && !(mask_ns(a) == mask_ns(m) && cases[*i].text.contains('.')) {
+      rep.disagree(Kind::ImplVsModel, "xsd", "Value::try_from_xsd_date_time differs from the model", &cases[*i].text, a, m);
+    }
+  }
+  // ---- model
+  let lit_reqs: Vec<String> = cases.iter().zip(obs.iter()).map(|(c, o)| format!("(c14 lit {} {} {})", c.kind, o.known, Sexp::str(&c.text))).collect();
+  let lit_ans = model.ask_batch(&lit_reqs);
+  let mut print_idx = vec![];
+  let mut print_reqs = vec![];
+  for (i, o) in obs.iter().enumerate() {
+    if o.v.starts_with('(') && !o.v.starts_with("(other") {
+      print_idx.push(i);
+      print_reqs.push(format!("(c14 print {} {})", o.known, o.v));
+    }
+  }
+  let print_ans = model.ask_batch(&print_reqs);
+  let mut print_of: std::collections::HashMap<usize, String> = std::collections::HashMap::new();
+  for (i, a) in print_idx.iter().zip(print_ans.iter()) {
+    print_of.insert(*i, a.clone());
+  }
+  // ---- compare
+  for (i, c) in cases.iter().enumerate() {
+    let o = &obs[i];
+    let input = if c.kind == "at" { format!("@\"{}\"", c.text) } else { format!("{}(\"{}\")", fn_of(c.kind), c.text) };
+    rep.case(&format!("{} {}", c.kind, c.text), true);
+    rep.hit(&format!("family:{}", c.family));
+    rep.hit(if o.v == "null" { "outcome:null" } else if o.v == "panic" { "outcome:panic" } else { "outcome:value" });
+    let m = &lit_ans[i];
+    // 1. the denoted value: implementation = model
+    if o.v == "panic" && c.text.contains('@') && (c.kind == "time" || c.kind == "at") {
+      // reading a time in a named zone looks up today's offset there (finding F6)
+      rep.disagree(Kind::ImplVsSpec, "literal_exact", "C14 time literal in a named zone: today's local time does not exist or is ambiguous (panic)", &input, &o.v, m);
+      continue;
+    }
+    if &o.v != m {
+      if mask_ns(&o.v) == mask_ns(m) && c.text.contains('.') {
+        // the only difference is the nanoseconds of a written fraction: the f64 route
+        rep.disagree(Kind::ImplVsSpec, "literal_exact", "C14 fractional seconds: the f64 conversion differs from the written digits", &input, &o.v, m);
+      } else if c.kind == "dur" && c.text.contains('.') && o.v.starts_with("(dtd") && m.starts_with("(dtd") {
+        rep.disagree(Kind::ImplVsSpec, "literal_exact", "C14 fractional seconds of a duration: the f64 conversion differs from the written digits", &input, &o.v, m);
+      } else if o.v == "null" && m.starts_with('(') && rounds_to_one(&c.text) {
+        // `.999999999…` parses to the f64 1.0: 10⁹ ns, which chrono accepts only at second 59
+        rep.disagree(Kind::ImplVsSpec, "literal_exact", "C14 fractional seconds: a fraction that f64 rounds up to 1.0 makes the literal null", &input, &o.v, m);
+      } else {
+        rep.disagree(Kind::ImplVsModel, "literal", "literal denotes a different value than in the model", &input, &o.v, m);
+      }
+    }
+    // 2. against what was written
+    if let Some(want) = &c.expected {
+      if &o.v != want && c.sig == "zone-database-skew" {
+        // a name of today's IANA list that the zone database bundled with chrono-tz does not
+        // have (or the reverse): the database is a parameter, not part of the property
+        rep.hit("zone:unknown-to-the-bundled-database");
+      } else if &o.v != want {
+        let f64_only = (mask_ns(&o.v) == mask_ns(want) || (o.v.starts_with("(dtd") && want.starts_with("(dtd"))) && c.text.contains('.');
+        let sig = if o.v == "null" && want.starts_with('(') && rounds_to_one(&c.text) {
+          "C14 fractional seconds: a fraction that f64 rounds up to 1.0 makes the literal null"
+        } else if f64_only {
+          if c.kind == "dur" { "C14 fractional seconds of a duration: the f64 conversion differs from the written digits" } else { "C14 fractional seconds: the f64 conversion differs from the written digits" }
+        } else if o.v == "panic" {
+          "C14 duration literal beyond the representable maximum panics"
+        } else if c.family == "invalid" && c.kind == "dur" && o.v != "null" {
+          match c.text.as_str() {
+            "P1DT" | "PT0.S" => "C14 malformed duration text is accepted: empty time part or empty fraction",
+            _ => c.sig,
+          }
+        } else if c.family == "dur:too-large" && o.v.starts_with("(ymd -") && !c.text.starts_with('-') {
+          "C14 duration literal: a component of 2^63 or more wraps to a negative number (as i64)"
+        } else if c.family == "dur:too-large" && o.v != "null" {
+          "C14 duration literal: a component beyond u64 is skipped silently"
+        } else {
+          c.sig
+        };
+        rep.disagree(Kind::ImplVsSpec, "literal_exact", sig, &input, &o.v, want);
+      }
+    }
+    // 3. printing and reading back
+    if let Some(pa) = print_of.get(&i) {
+      let (ms, mv2) = match Sexp::parse(pa).and_then(|s| s.as_list().map(|l| l.to_vec())) {
+        Some(l) if l.len() == 2 => (l[0].to_string(), l[1].to_string()),
+        _ => {
+          rep.disagree(Kind::ImplVsModel, "print", "driver-error", &print_reqs[0], &o.s, pa);
+          continue;
+        }
+      };
+      if o.s != ms {
+        rep.disagree(Kind::ImplVsModel, "print", "string(v) differs from the model's printer", &format!("string({})", input), &o.s, &ms);
+      }
+      if o.s == "panic" {
+        rep.disagree(Kind::ImplVsSpec, "roundtrip", "C14 string(v) panics on the years and months duration of i64::MIN months", &format!("string({})", input), "panic", "a text");
+        continue;
+      }
+      if c.kind != "at" && o.s != "panic" {
+        if o.v2 != mv2 && !(mask_ns(&o.v2) == mask_ns(&mv2) && o.s.contains("46")) {
+          rep.disagree(Kind::ImplVsModel, "readback", "reading string(v) back differs from the model", &format!("{}(string({}))", fn_of(c.kind), input), &o.v2, &mv2);
+        }
+        if o.v2 != o.v {
+          let sig = roundtrip_signature(&o.v, &o.v2, &o.s);
+          rep.disagree(Kind::ImplVsSpec, "roundtrip", sig, &format!("{}(string({}))", fn_of(c.kind), input), &o.v2, &o.v);
+        }
+      }
+      // 4. normal form of durations
+      if o.v.starts_with("(dtd ") || o.v.starts_with("(ymd ") {
+        let n: i128 = o.v[5..o.v.len() - 1].parse().unwrap_or(0);
+        let want = if o.v.starts_with("(dtd") { dtd_normal(n) } else { ymd_normal(n) };
+        let want = Sexp::str(&want).to_string();
+        if o.s != want {
+          rep.disagree(Kind::ImplVsSpec, "dur_normal_form", "C14 duration text is not the normal form", &format!("string({})", input), &o.s, &want);
+        }
+      }
+    }
+    if rep.samples.len() < 10 && c.family.ends_with("valid") && i % 97 == 0 {
+      rep.sample(json!({"expression": input, "value": o.v, "string": o.s, "read back": o.v2, "model": m}));
+    }
+  }
+  // ---- values only constructors build
+  let cons = constructed_values(&mut rng, thorough);
+  let mut cobs = vec![];
+  for (e, kind) in &cons {
+    let f = fn_of(kind);
+    let r = feel_list(&format!("{{v: {}, s: string(v), r: [v, s, {}(s)]}}.r", e, f));
+    if r.len() == 3 {
+      cobs.push((norm(&r[0]), r[1].clone(), norm(&r[2])));
+    } else {
+      cobs.push((norm(&r[0]), "null".into(), "null".into()));
+    }
+  }
+  let reqs: Vec<String> = cobs.iter().map(|(v, _, _)| if v.starts_with('(') { format!("(c14 print true {})", v) } else { "(c14 print true (ymd 0))".to_string() }).collect();
+  let answers = model.ask_batch(&reqs);
+  for (((e, kind), (v, s, v2)), ans) in cons.iter().zip(cobs.iter()).zip(answers.iter()) {
+    rep.case(e, true);
+    rep.hit("family:constructed");
+    if !v.starts_with('(') {
+      continue;
+    }
+    let (ms, mv2) = match Sexp::parse(ans).and_then(|s| s.as_list().map(|l| l.to_vec())) {
+      Some(l) if l.len() == 2 => (l[0].to_string(), l[1].to_string()),
+      _ => continue,
+    };
+    if s != &ms {
+      rep.disagree(Kind::ImplVsModel, "print", "string(v) differs from the model's printer", &format!("string({})", e), s, &ms);
+    }
+    if v2 != &mv2 && !(mask_ns(v2) == mask_ns(&mv2)) {
+      rep.disagree(Kind::ImplVsModel, "readback", "reading string(v) back differs from the model", &format!("{}(string({}))", fn_of(kind), e), v2, &mv2);
+    }
+    if v2 != v {
+      let sig = roundtrip_signature(v, v2, s);
+      rep.disagree(Kind::ImplVsSpec, "roundtrip", sig, &format!("{}(string({}))", fn_of(kind), e), v2, v);
+    }
+  }
+  // ---- time(h, m, s) and time(h, m, s, offset) from numbers
+  {
+    let n = if thorough { 6000 } else { 1500 };
+    let mut tcases: Vec<([(i128, i32); 3], Option<i128>)> = vec![
+      ([(105, -1), (0, 0), (0, 0)], None),
+      ([(115, -1), (5, -1), (301_234_567_891, -10)], None),
+      ([(235, -1), (0, 0), (0, 0)], None),
+      ([(10, 0), (595, -1), (0, 0)], None),
+      ([(10, 0), (0, 0), (599_999_999_999, -10)], None),
+      ([(10, 0), (0, 0), (0, 0)], Some(-1_800_000_000_000)),
+      ([(10, 0), (0, 0), (0, 0)], Some(500_000_000)),
+      ([(10, 0), (0, 0), (0, 0)], Some(54_000_000_000_000)),
+      ([(10, 0), (0, 0), (0, 0)], Some(172_800_000_000_000)),
+      ([(24, 0), (0, 0), (0, 0)], None),
+      ([(-1, 0), (0, 0), (0, 0)], None),
+      ([(10, 0), (60, 0), (0, 0)], None),
+      ([(10, 0), (0, 0), (60, 0)], None),
+    ];
+    for _ in 0..n {
+      let mut comp = |rng: &mut Rng, hi: i64| -> (i128, i32) {
+        let base = if rng.chance(1, 12) { rng.range(-2, hi + 2) } else { rng.range(0, hi - 1) } as i128;
+        match rng.below(8) {
+          0 => (base * 10 + 5, -1),
+          1 => (base * 100 + rng.range(1, 99) as i128, -2),
+          2 => (base * 10, -1),
+          _ => (base, 0),
+        }
+      };
+      let h = comp(&mut rng, 24);
+      let mi = comp(&mut rng, 60);
+      let sb = rng.range(0, 59) as i128;
+      let s = match rng.below(5) {
+        0 => (sb, 0),
+        1 => (sb * 1000 + rng.range(0, 999) as i128, -3),
+        2 => (sb * 1_000_000_000 + rng.range(0, 999_999_999) as i128, -9),
+        3 => (sb * 100_000_000_000 + rng.range(0, 99_999_999_999) as i128, -11),
+        _ => (sb * 10 + rng.range(0, 9) as i128, -1),
+      };
+      let off = match rng.below(5) {
+        0 | 1 => None,
+        2 => Some(rng.range(-53_999, 53_999) as i128 * 1_000_000_000),
+        3 => Some(rng.range(-900, 900) as i128 * 60_000_000_000 + rng.range(0, 999_999_999) as i128),
+        _ => Some(rng.range(-200_000, 200_000) as i128 * 1_000_000_000),
+      };
+      tcases.push(([h, mi, s], off));
+    }
+    let text = |c: &([(i128, i32); 3], Option<i128>)| -> String {
+      let args = format!("{}, {}, {}", crate::c15::dec_text(c.0[0].0, c.0[0].1), crate::c15::dec_text(c.0[1].0, c.0[1].1), crate::c15::dec_text(c.0[2].0, c.0[2].1));
+      match c.1 {
+        None => format!("time({})", args),
+        Some(n) => {
+          let a = n.abs();
+          let frac = if a % 1_000_000_000 > 0 { format!(".{}", format!("{:09}", a % 1_000_000_000).trim_end_matches('0')) } else { String::new() };
+          format!("time({}, duration(\"{}PT{}{}S\"))", args, if n < 0 { "-" } else { "" }, a / 1_000_000_000, frac)
+        }
+      }
+    };
+    // the offset duration must be the intended one (its literal goes through f64 in the code)
+    tcases.retain(|c| match c.1 {
+      None => true,
+      Some(n) => {
+        let a = n.abs();
+        let frac = if a % 1_000_000_000 > 0 { format!(".{}", format!("{:09}", a % 1_000_000_000).trim_end_matches('0')) } else { String::new() };
+        feel(&format!("duration(\"{}PT{}{}S\")", if n < 0 { "-" } else { "" }, a / 1_000_000_000, frac)) == format!("(dtd {})", n)
+      }
+    });
+    let reqs: Vec<String> = tcases
+      .iter()
+      .map(|c| {
+        format!(
+          "(c14 timenum ({} {}) ({} {}) ({} {}) {})",
+          c.0[0].0, c.0[0].1, c.0[1].0, c.0[1].1, c.0[2].0, c.0[2].1,
+          c.1.map(|n| n.to_string()).unwrap_or_else(|| "none".into())
+        )
+      })
+      .collect();
+    let answers = model.ask_batch(&reqs);
+    for ((c, req), ans) in tcases.iter().zip(reqs.iter()).zip(answers.iter()) {
+      let e = text(c);
+      let o = norm(&feel(&e));
+      rep.case(req, true);
+      rep.hit("family:time-from-numbers");
+      if &o != ans {
+        rep.disagree(Kind::ImplVsModel, "time_from_numbers", "time(h, m, s[, offset]) differs from the model", &e, &o, ans);
+      }
+      // what is written: integral hour and minute in range, seconds split exactly, the offset in
+      // whole seconds below 15 hours; otherwise null
+      let integral = |x: &(i128, i32)| x.1 >= 0 || x.0 % 10i128.pow((-x.1) as u32) == 0;
+      let val = |x: &(i128, i32)| if x.1 >= 0 { x.0 * 10i128.pow(x.1 as u32) } else { x.0.div_euclid(10i128.pow((-x.1) as u32)) };
+      let (h, mi, s) = (&c.0[0], &c.0[1], &c.0[2]);
+      let in_range = |x: &(i128, i32), k: i128| x.0 >= 0 && val(x) < k;
+      let want = if integral(h) && integral(mi) && in_range(h, 24) && in_range(mi, 60) && in_range(s, 60) && c.1.map(|n| n.abs() < 54_000_000_000_000).unwrap_or(true) {
+        let p = if s.1 >= 0 { 1 } else { 10i128.pow((-s.1) as u32) };
+        let ns = if s.1 >= 0 { 0 } else { (s.0 % p) * 1_000_000_000 / p };
+        let z = match c.1 {
+          None => "local".to_string(),
+          Some(n) => {
+            let secs = n / 1_000_000_000;
+            if secs == 0 { "utc".to_string() } else { format!("(offset {})", secs) }
+          }
+        };
+        format!("(time {} {} {} {} {})", val(h), val(mi), val(s), ns, z)
+      } else {
+        "null".to_string()
+      };
+      if o != want {
+        let sig = if !(integral(h) && integral(mi)) {
+          "C14 time(h, m, s): a fractional hour or minute is rounded half-even instead of rejected"
+        } else if c.1.map(|n| n.abs() >= 54_000_000_000_000).unwrap_or(false) {
+          "C14 time(h, m, s, offset): an offset of 15 hours or more is accepted"
+        } else {
+          "C14 time(h, m, s[, offset]) does not denote the written time"
+        };
+        rep.disagree(Kind::ImplVsSpec, "time_from_numbers", sig, &e, &o, &want);
+      }
+    }
+  }
+  rep.exhaustive = true;
+  rep.model_requests = model.requests;
+  rep
+}
+
+/// The text has a fraction of at least sixteen leading nines (its f64 value is 1.0).
+fn rounds_to_one(text: &str) -> bool {
+  match text.find('.') {
+    Some(i) => text[i + 1..].chars().take_while(|c| *c == '9').count() >= 16,
+    None => false,
+  }
+}
+
+/// Which way the text form failed to read back as an equal value.
+fn roundtrip_signature(v: &str, v2: &str, s: &str) -> &'static str {
+  let offset_of = |o: &str| -> Option<i64> {
+    let i = o.find("(offset ")?;
+    o[i + 8..].trim_end_matches(')').parse().ok()
+  };
+  let year_of = |o: &str| -> Option<i64> {
+    if o.starts_with("(date ") || o.starts_with("(dt ") {
+      o.split(' ').nth(1)?.parse().ok()
+    } else {
+      None
+    }
+  };
+  if let Some(y) = year_of(v) {
+    if y.abs() < 1000 {
+      return "C14 text of a date with a year below 1000 (or above -1000) does not read back";
+    }
+  }
+  if let Some(o) = offset_of(v) {
+    if o < 0 && o > -3600 {
+      return "C14 text of an offset between -00:59:59 and -00:00:01 loses its sign";
+    }
+    if o.abs() >= 54_000 {
+      return "C14 text of an offset of 15 hours or more (from minutes/seconds of 60..99) does not read back";
+    }
+  }
+  if s.ends_with(" 46)") || s.contains(" 46 90)") || s.contains(" 46 43 ") || s.contains(" 46 45 ") || s.contains(" 46 64 ") {
+    return "C14 text of a time whose fraction was rounded up to a whole second ends in a bare point";
+  }
+  if mask_ns(v) == mask_ns(v2) || (v.starts_with("(dtd") && v2.starts_with("(dtd")) {
+    return "C14 fractional seconds: the f64 conversion differs from the written digits";
+  }
+  "C14 string(v) does not read back as an equal value"
 }
